@@ -19,7 +19,7 @@ RULE = ('cases are accepted middleware stacks (0-5 middlewares over application 
         'distinct by hash of configuration + deviation')
 ASSUMPTIONS = ['at most one instance of a unique middleware type inside any single list (O5)',
                'exceptions are plain Exception subclasses raised by the spies; the application re-raises uncaught errors']
-REQUIRED_REACH = ['same-instance-across-levels', 'same-class-name-across-levels', 'constructed', 'requests-on-accepted', 'beh:raise_before', 'beh:raise_after', 'beh:short', 'beh:swallow',
+REQUIRED_REACH = ['dup-unique-within-an-inner-list', 'beh:render-layer-returns-non-response', 'same-instance-across-levels', 'same-class-name-across-levels', 'constructed', 'requests-on-accepted', 'beh:raise_before', 'beh:raise_after', 'beh:short', 'beh:swallow',
                   'beh:replace', 'beh:short_ctx', 'beh:ep-resp', 'beh:ep-raise', 'beh:rn-raise', 'levels:2', 'levels:3',
                   'dup-unique-across-levels', 'nonreorderable-dup', 'phase-seen:request', 'phase-seen:endpoint',
                   'phase-seen:render', 'sibling-routes-with-own-middlewares', 'flavour:base', 'flavour:http', 'raises-http-exception', 'subclass-across-levels']
@@ -45,6 +45,15 @@ def retype(rng, cfg, sh):
         return
     (i1, m1), (i2, m2) = rng.sample(flat, 2)
     if i1 == i2:
+        # two instances of one unique type inside a single list: the outermost application's own list keeps both (O5,
+        # pinned by the suite) - any inner list (an embedded application's, the route's) is de-duplicated like the rest
+        if i1 == 0:
+            return
+        first, second = (m1, m2) if lists[i1].index(m1) < lists[i1].index(m2) else (m2, m1)
+        second['type'] = first['type']
+        for a in ('provides', 'endpoint_provides', 'render_provides'):
+            second[a] = []
+        sh.hit('dup-unique-within-an-inner-list')
         return
     mode = rng.pick(['unique', 'unique', 'nonunique', 'nonreorderable', 'subclass', 'subclass', 'same-instance', 'same-class-name'])
     if mode == 'same-class-name':
@@ -98,10 +107,12 @@ def make_case(rng, sh):
     if funcs and r < 0.62:
         ph, fid = rng.pick(funcs)
         b = rng.pick(MW_BEH)
-        if b == 'short_ctx' and ph != 'endpoint':
+        if b == 'short_ctx' and ph == 'request':
             b = 'short'
         beh[fid] = b
         sh.hit('beh:' + b)
+        if b == 'short_ctx' and ph == 'render':
+            sh.hit('beh:render-layer-returns-non-response')
         if b == 'swallow':    # something inside must raise for the swallow to matter
             beh['ep'] = 'raise' if rng.chance(0.6) else beh.get('ep', 'ctx')
     elif r < 0.72:
@@ -110,9 +121,13 @@ def make_case(rng, sh):
     elif r < 0.82:
         beh['ep'] = 'raise'
         sh.hit('beh:ep-raise')
-    elif r < 0.9:
+    elif r < 0.87:
         beh['rn'] = 'raise'
         sh.hit('beh:rn-raise')
+    elif r < 0.93:
+        # the render function hands back something that is not a Response: every enclosing layer sees exactly that
+        beh['rn'] = 'ctx'
+        sh.hit('beh:render-layer-returns-non-response')
     else:
         sh.hit('beh:none')
     if funcs and rng.chance(0.15):     # a second, independent deviation
